@@ -120,18 +120,20 @@ Definition ok_C16 (c : cfg) (r : result) : bool :=
 
 (** ** C17 *)
 (** [cur] = first flattened position a non-empty range may start at (everything before it is
-    filled / sent, or was described by an earlier range of the same request) *)
-Fixpoint ranges_ok (lens : list nat) (cur : nat) (rs : list range) : bool :=
+    filled / sent, or was described by an earlier range of the same request); the first non-empty
+    range of a request ([exact]) starts exactly at the first unfilled position *)
+Fixpoint ranges_ok (lens : list nat) (cur : nat) (exact : bool) (rs : list range) : bool :=
   match rs with
   | [] => true
   | (sg, off, len) :: rs' =>
       (sg <? List.length lens)%nat && (off + len <=? nth sg lens O)%nat
-      && if (len =? 0)%nat then ranges_ok lens cur rs'
-         else (cur <=? stage lens sg + off)%nat && ranges_ok lens (stage lens sg + off + len) rs'
+      && if (len =? 0)%nat then ranges_ok lens cur exact rs'
+         else (if exact then (cur =? stage lens sg + off)%nat else (cur <=? stage lens sg + off)%nat)
+              && ranges_ok lens (stage lens sg + off + len) false rs'
   end.
 
 Definition req_ok (lens : list nat) (filled : nat) (q : request) : bool :=
-  ranges_ok lens filled (q_ranges q) && Nat.eqb (q_count q) (List.length (q_ranges q)).
+  ranges_ok lens filled true (q_ranges q) && Nat.eqb (q_count q) (List.length (q_ranges q)).
 
 Definition c17_step (lens : list nat) (a : bool * nat) (q : request) : bool * nat :=
   (fst a && req_ok lens (snd a) q, (snd a + q_moved q)%nat).
